@@ -44,6 +44,8 @@ func init() {
 			{ID: "C02-R21", Title: "closures are built where they are loaded and go to the stack only", Floor: 1, Run: closuresAreBuiltWhereTheyAreLoaded},
 			{ID: "C02-R22", Title: "every function literal gets its own code", Floor: 1, Run: everyFunctionLiteralGetsItsOwnCode},
 			{ID: "C02-R23", Title: "the slot of a named function is filled whenever it was reserved", Floor: 1, Run: theSelfSlotIsFilledWheneverItWasReserved},
+			{ID: "C02-R24", Title: "every symbol has a slot of its own (shared with C01-R36)", Floor: 1, Run: everySymbolHasASlotOfItsOwn},
+			{ID: "C02-R25", Title: "handed-down cells are indexed by the enclosing function", Floor: 1, Run: handedDownCellsAreIndexedByTheEnclosingFunction},
 		},
 	})
 }
